@@ -258,7 +258,9 @@ func (f *File) AddChild(child Box, boxStartPos uint64) {
 		if stbl == nil || stbl.Stts == nil || len(stbl.Stts.SampleCount) == 0 {
 			f.isFragmented = true
 			f.Init = NewMP4Init()
-			f.Init.AddChild(f.Ftyp)
+			if f.Ftyp != nil {
+				f.Init.AddChild(f.Ftyp)
+			}
 			f.Init.AddChild(f.Moov)
 		}
 	case *SidxBox:
